@@ -48,7 +48,9 @@ def handle : Handler
     let full := u0.fullURI qa
     let v := parse [] full
     let vq := parseArgs v.query
-    let out := [encHex full] ++ uriTokens v ++ [toString vq.length] ++ vq.flatMap (fun kv => [encHex kv.key, encHex kv.value]) ++ [encHex (v.fullURI vq)]
+    -- the harness calls `v.QueryArgs()` before `v.FullURI()`: the flag is set and the arguments are the query (none when every
+    -- parsed pair was dropped), /repo 97b0e80
+    let out := [encHex full] ++ uriTokens v ++ [toString vq.length] ++ vq.flatMap (fun kv => [encHex kv.key, encHex kv.value]) ++ [encHex (v.fullURIp true vq)]
     -- spec on the implementation's tokens: same scheme, host, path, query list and fragment; formatting again is a fixed point
     let wf := wfUri scheme host
     let (ok, why) := match impl with
